@@ -228,6 +228,8 @@ def exhaustive(chk, cases, rng, kprocs, kmods):
 def run(chk):
     chk.build(["theories/Corr/C13.vo", "theories/Props/C13.vo"])
     chk.props("theories/Props/C13.v", THEOREMS)
+    if chk.tier == "thorough":
+        chk.coqchk(["Ford.Props.C13"])
     rng = chk.rng
     quick = chk.tier == "quick"
     cases = []
